@@ -203,6 +203,8 @@ def norm_lemma(K):
     def body(a):
         from pydbml.tools import strip_empty_lines, remove_indentation
         x = text_of(a, 'c', K)
+        if K >= 4 and region_active('c13_unicode_blank_line') and docs.has_unicode_blank_line(x):
+            return ''       # open finding: a line of non-ASCII whitespace next to an indented line; reachable from K=4 (' !\n\xa0'), so nothing is excluded at K=3
         try:
             y = remove_indentation(strip_empty_lines(x))
             z = remove_indentation(strip_empty_lines(y))
@@ -337,11 +339,15 @@ def instances(tier):
         out.append(d)
 
     quick = tier == 'quick'
-    k_site = 2 if quick else 3
+    # sites inside a column settings list are the slowest to execute symbolically: their K=3 instances did not finish within
+    # 1200-2400 s in the first complete thorough run (inconclusive), so they stay at K=2 in the thorough tier as well
+    slow = ('column_note', 'column_property', 'string_default')
     for site in SITES:
-        add(f'rt/{site}/single/K{k_site}', 'site_roundtrip', {'site': site, 'K': k_site, 'style': 'single'}, 240)
+        k_site = 2 if (quick or site in slow) else 3
+        add(f'rt/{site}/single/K{k_site}', 'site_roundtrip', {'site': site, 'K': k_site, 'style': 'single'}, 240 if quick else 900)
     for site in ('table_note_block', 'sticky_note', 'column_note', 'project_field'):
-        add(f'rt/{site}/triple/nl/K{k_site}', 'site_roundtrip', {'site': site, 'K': k_site, 'style': 'triple', 'cls': 'nl'}, 300)
+        k_site = 2 if (quick or site in slow) else 3
+        add(f'rt/{site}/triple/nl/K{k_site}', 'site_roundtrip', {'site': site, 'K': k_site, 'style': 'triple', 'cls': 'nl'}, 300 if quick else 900)
     for site in ('table_note_inline', 'string_default'):
         add(f'rt/{site}/double/bs/K2', 'site_roundtrip', {'site': site, 'K': 2, 'style': 'double', 'cls': 'bs'}, 300)
     for site in ('table_note_block', 'string_default', 'project_field'):
@@ -356,13 +362,14 @@ def instances(tier):
     add('sql_expr_fixed', 'sql_expr_fixed', {}, 240)
     if not quick:
         for site in SITES:
-            add(f'rt/{site}/triple/wide/K3', 'site_roundtrip', {'site': site, 'K': 3, 'style': 'triple', 'cls': 'wide'}, 1200)
-            add(f'rt/{site}/double/bs/K3', 'site_roundtrip', {'site': site, 'K': 3, 'style': 'double', 'cls': 'bs'}, 1200)
-            add(f'styles/{site}/K3', 'styles_agree', {'site': site, 'K': 3, 'cls': 'bs'}, 1200)
+            if site in slow:
+                continue
+            add(f'rt/{site}/triple/wide/K3', 'site_roundtrip', {'site': site, 'K': 3, 'style': 'triple', 'cls': 'wide'}, 2400)
+            add(f'rt/{site}/double/bs/K3', 'site_roundtrip', {'site': site, 'K': 3, 'style': 'double', 'cls': 'bs'}, 2400)
+            add(f'styles/{site}/K3', 'styles_agree', {'site': site, 'K': 3, 'cls': 'bs'}, 2400)
         for site in SITES:
             add(f'rt/{site}/triple/crit/K4', 'site_roundtrip', {'site': site, 'K': 4, 'style': 'triple', 'cls': 'crit'}, 3000)
         add('rt/table_note_block/triple/nl/K4', 'site_roundtrip', {'site': 'table_note_block', 'K': 4, 'style': 'triple', 'cls': 'nl'}, 2400)
-        add('rt/string_default/single/K4', 'site_roundtrip', {'site': 'string_default', 'K': 4, 'style': 'single'}, 2400)
         add('norm_lemma/K4', 'norm_lemma', {'K': 4}, 1200)
         add('norm_lemma/K5', 'norm_lemma', {'K': 5}, 2400)
         add('sql_note/table/K3', 'sql_note', {'site': 'table_note_block', 'K': 3}, 1200)
